@@ -30,7 +30,8 @@ fn witness_case() -> String {
 fn ds_case(r: &mut Rng, thorough: bool) -> String {
     let ts_k = r.below(4) as u8;
     let depth = if thorough { r.below(9) as u32 } else { r.below(5) as u32 };
-    let (obj, path) = case_object(r, ts_k, depth);
+    // (C04 is about the writer: when the reader rejects the reference encoding — C01/C02 report that — use path A)
+    let (obj, path) = case_object(r, ts_k, depth).unwrap_or_else(|(_, nodes, _)| (to_object(&nodes), "A"));
     let nodes = from_object(&obj);
     let w = write_all_ways(&obj, ts_k);
     format!("ds {} {} T {} W {} {} {}", ts_k, path, sexpr(&nodes), w[0], w[1], w[2])
